@@ -404,10 +404,10 @@ func (fr *Frame) reachCheck(st *State, ins ssa.Instruction, gc *FuncContract) {
 		if fr.reachDone == nil {
 			fr.reachDone = map[string]bool{}
 		}
-		if fr.reachDone[key+rc.Clause.Text] {
+		if fr.reachDone[key+rc.Clause.Text+"/"+rc.SetName] {
 			continue
 		}
-		fr.reachDone[key+rc.Clause.Text] = true
+		fr.reachDone[key+rc.Clause.Text+"/"+rc.SetName] = true
 		if !fr.reachDone["cover@"+key] && x.inDefer == 0 {
 			// a gate proved on an unreachable path proves nothing
 			fr.reachDone["cover@"+key] = true
